@@ -349,6 +349,11 @@ fn meta(param: &str, state: &str, key: &str, val: Option<&str>) -> Letter {
     Letter::many(l)
 }
 
+/// legacy spelling of a metadata line (`#CTE_Area_ref: 10`)
+fn legacy(param: &str, state: &str, line: &str) -> Letter {
+    Letter::many(vec![Line::Raw(format!("# P:{param}={state}")), Line::Raw(line.to_string())])
+}
+
 struct Domains {
     area_opt: Vec<Letter>,
     area_meta: Vec<Letter>,
@@ -374,11 +379,11 @@ fn domains() -> Domains {
     };
     Domains {
         area_opt: vec![opt("", "area_opt", "absent", &[]), o("area_opt", "good", "50", "-a"), o("area_opt", "good", "0.0011", "-a"), o("area_opt", "bad", "0.001", "-a"), o("area_opt", "bad", "0", "-a"), o("area_opt", "bad", "-5", "--arearef="), o("area_opt", "bad", "abc", "-a")],
-        area_meta: vec![meta("area_meta", "absent", "", None), meta("area_meta", "good:200.5", "CTE_AREAREF", Some("200.5")), meta("area_meta", "good:50", "CTE_AREAREF", Some("50")), meta("area_meta", "good:50.0004", "CTE_AREAREF", Some("50.0004")), meta("area_meta", "bad:abc", "CTE_AREAREF", Some("abc")), meta("area_meta", "bad:0", "CTE_AREAREF", Some("0"))],
+        area_meta: vec![meta("area_meta", "absent", "", None), meta("area_meta", "good:200.5", "CTE_AREAREF", Some("200.5")), meta("area_meta", "good:50", "CTE_AREAREF", Some("50")), legacy("area_meta", "good:75.25", "#CTE_Area_ref: 75.25"), legacy("area_meta", "good:1e2", "  #META   CTE_AREAREF :  1e2  "), meta("area_meta", "good:50.0004", "CTE_AREAREF", Some("50.0004")), meta("area_meta", "bad:abc", "CTE_AREAREF", Some("abc")), meta("area_meta", "bad:0", "CTE_AREAREF", Some("0"))],
         k_opt: vec![opt("", "k_opt", "absent", &[]), o("k_opt", "good", "0.5", "-k"), o("k_opt", "good", "0", "-k"), o("k_opt", "good", "1", "-k"), o("k_opt", "bad", "1.01", "-k"), o("k_opt", "bad", "-0.1", "--kexp="), o("k_opt", "bad", "x", "-k")],
-        k_meta: vec![meta("k_meta", "absent", "", None), meta("k_meta", "good:0.7", "CTE_KEXP", Some("0.7")), meta("k_meta", "good:0.25", "CTE_KEXP", Some("0.25")), meta("k_meta", "good:0.5", "CTE_KEXP", Some("0.5")), meta("k_meta", "good:0", "CTE_KEXP", Some("0")), meta("k_meta", "good:1.0", "CTE_KEXP", Some("1.0")), meta("k_meta", "bad:2", "CTE_KEXP", Some("2")), meta("k_meta", "bad:x", "CTE_KEXP", Some("x"))],
+        k_meta: vec![meta("k_meta", "absent", "", None), meta("k_meta", "good:0.7", "CTE_KEXP", Some("0.7")), meta("k_meta", "good:0.25", "CTE_KEXP", Some("0.25")), meta("k_meta", "good:0.5", "CTE_KEXP", Some("0.5")), legacy("k_meta", "good:0.3", "#CTE_kexp: 0.3"), meta("k_meta", "good:0", "CTE_KEXP", Some("0")), meta("k_meta", "good:1.0", "CTE_KEXP", Some("1.0")), meta("k_meta", "bad:2", "CTE_KEXP", Some("2")), meta("k_meta", "bad:x", "CTE_KEXP", Some("x"))],
         loc_opt: vec![opt("", "loc_opt", "absent", &[]), o("loc_opt", "good", "PENINSULA", "-l"), o("loc_opt", "good", "CANARIAS", "-l"), o("loc_opt", "bad", "MARTE", "-l")],
-        loc_meta: vec![meta("loc_meta", "absent", "", None), meta("loc_meta", "good:BALEARES", "CTE_LOCALIZACION", Some("BALEARES")), meta("loc_meta", "good:PENINSULA", "CTE_LOCALIZACION", Some("PENINSULA")), meta("loc_meta", "bad:LUNA", "CTE_LOCALIZACION", Some("LUNA"))],
+        loc_meta: vec![meta("loc_meta", "absent", "", None), meta("loc_meta", "good:BALEARES", "CTE_LOCALIZACION", Some("BALEARES")), meta("loc_meta", "good:PENINSULA", "CTE_LOCALIZACION", Some("PENINSULA")), legacy("loc_meta", "good:CEUTAMELILLA", "#CTE_Localizacion: CEUTAMELILLA"), meta("loc_meta", "bad:LUNA", "CTE_LOCALIZACION", Some("LUNA"))],
         red1_opt: vec![opt("", "red1_opt", "absent", &[]), opt("", "red1_opt", "good:0.5 0.5 0.1", &["--red1", "0.5", "0.5", "0.1"]), opt("", "red1_opt", "bad:a 1 1", &["--red1", "a", "1", "1"])],
         red1_meta: vec![meta("red1_meta", "absent", "", None), meta("red1_meta", "good:0.2, 0.8, 0.05", "CTE_RED1", Some("0.2, 0.8, 0.05")), meta("red1_meta", "good:0.5, 0.5, 0.1", "CTE_RED1", Some("0.5, 0.5, 0.1")), meta("red1_meta", "good:0, 1.3, 0.3", "CTE_RED1", Some("0, 1.3, 0.3")), meta("red1_meta", "bad:x, y", "CTE_RED1", Some("x, y")), meta("red1_meta", "bad:1, 2", "CTE_RED1", Some("1, 2"))],
         red2_opt: vec![opt("", "red2_opt", "absent", &[]), opt("", "red2_opt", "good:0.25 0.75 0.2", &["--red2", "0.25", "0.75", "0.2"]), opt("", "red2_opt", "bad:1 b 1", &["--red2", "1", "b", "1"])],
